@@ -191,7 +191,7 @@ def run(ctx):
 
 
 def replay(case, ctx):
-    emb = tuple(case['embedding'])
+    emb = tuple(case.get('embedding') or ctx.embedding)
     for tf, droutes, kind, gen, npr in configs(False) + configs(True):
         if tf == case['tf'] and droutes == case['data_routes'] and kind == case['kind']:
             for minutes, wname in words(gen):
